@@ -80,3 +80,9 @@ Proof. reflexivity. Qed.
    internal_error alert (since /repo dd1d1cb; before, the SRP and anonymous server paths did not) *)
 Lemma unhandled_callers_are : unhandled_callers = [].
 Proof. vm_compute. reflexivity. Qed.
+
+(* the blinding pair is only ever read or written while the key's lock is held *)
+Lemma state_access_locked :
+  rsa_state_accesses <> [] /\
+  forallb (fun a => match a with (_, _, _, locked) => locked end) rsa_state_accesses = true.
+Proof. split; [discriminate|vm_compute; reflexivity]. Qed.
